@@ -165,7 +165,7 @@ fn proven_security_protocol_for_given_proximity_parameter(
     let alpha = (1.0 + 0.5 / m) * sqrt(rho);
     // we use the blowup factor in order to bound the max degree
     let max_deg = options.blowup_factor() as f64 + 1.0;
-    let lde_domain_size = (trace_domain_size * options.blowup_factor()) as f64;
+    let lde_domain_size = trace_domain_size as f64 * options.blowup_factor() as f64;
     let trace_domain_size = trace_domain_size as f64;
     let num_openings = 2.0;
 
@@ -232,7 +232,7 @@ fn proven_security_protocol_unique_decoding(
 ) -> u64 {
     let extension_field_bits = (base_field_bits * options.field_extension().degree()) as f64;
     let num_fri_queries = options.num_queries() as f64;
-    let lde_domain_size = (trace_domain_size * options.blowup_factor()) as f64;
+    let lde_domain_size = trace_domain_size as f64 * options.blowup_factor() as f64;
     let trace_domain_size = trace_domain_size as f64;
     let num_openings = 2.0;
     let rho_plus = (trace_domain_size + num_openings) / lde_domain_size;
